@@ -205,7 +205,7 @@ static int vprog_text (const VProg * p, char *out, size_t cap)
   int i, k;
   char nm[16];
   o += snprintf (out + o, cap - o, ".function %s\n", p->name);
-  if (p->is2d) o += snprintf (out + o, cap - o, ".2d\n");
+  if (p->is2d) o += snprintf (out + o, cap - o, ".flags 2d\n");
   if (p->cn) o += snprintf (out + o, cap - o, ".n %d\n", p->cn);
   if (p->cm) o += snprintf (out + o, cap - o, ".m %d\n", p->cm);
   for (i = 0; i < p->nv; i++) {
@@ -378,7 +378,7 @@ static uint64_t v_value (int sz, int isfloat, int role, uint64_t i)
   }
   for (r = 0; r < role && d <= 100000; r++) d *= nb;
   if (d > 100000) k = (i * (uint64_t) (2 * role + 1) + (uint64_t) role * 13) % nb;	/* beyond any n used: vary, do not stay constant */
-  else k = (i / d) % nb;
+  else k = ((i / d) + (role ? i : 0)) % nb;	/* every role varies from element to element; over |B|^(roles) elements all tuples occur */
   /* decorrelate lanes for roles > 1 that would otherwise be constant over long runs */
   switch (sz) {
     case 1: return k;
